@@ -27,7 +27,7 @@ type C10Case struct {
 
 var logoutFaults = map[string][]string{
 	"version":     {"absent", "1.1", "2.00", " 2.0", ""},
-	"destination": {"wrong", "slash", "case", "space", "lspace"},
+	"destination": {"wrong", "slash", "case", "space", "lspace", "acs", "idp-slo"},
 	"issuer":      {"absent", "wrong", "slash", "case", "space", "empty"},
 	"status":      {"absent"},
 	"statuscode":  {"absent", "Requester", "success-case", "empty", "valueabsent", "PartialLogout"},
@@ -44,6 +44,12 @@ func applyLogoutFault(m *h.LogoutModel, sp h.SPConfig, f Fault) (ErrSpec, bool) 
 		return ErrSpec{Type: "ErrInvalidValue", Key: "SAML version", Reason: saml2.ReasonUnsupported}, true
 	case "destination":
 		v := nearMiss(sp.SLO, f.Variant)
+		switch f.Variant {
+		case "acs": // the SP's OTHER endpoint is not its single-logout URL
+			v = sp.ACS
+		case "idp-slo":
+			v = sp.IdPSLO
+		}
 		if v == sp.SLO || v == "" {
 			return ErrSpec{}, false
 		}
@@ -113,10 +119,13 @@ func genC10(t *rapid.T) C10Case {
 	atxt := txt
 	atxt.NoCDEnd = true
 	sp := h.BaseSP()
-	if rapid.Bool().Draw(t, "hostileSLO") {
+	switch rapid.IntRange(0, 5).Draw(t, "sloKind") {
+	case 0, 1, 2:
 		o := atxt
 		o.NonEmpt = true
 		sp.SLO = h.GenText(o).Draw(t, "slo")
+	case 3:
+		sp.SLO = "" // no single-logout URL configured: only an empty Destination is acceptable
 	}
 	if rapid.IntRange(0, 2).Draw(t, "noIssuer") == 0 {
 		sp.IdPIssuer = ""
@@ -419,6 +428,9 @@ func TestC10_Grid(t *testing.T) {
 						sp.Skip = skip
 						if !issuer {
 							sp.IdPIssuer = ""
+						}
+						if i%5 == 4 {
+							sp.SLO = ""
 						}
 						li := &h.LogoutIssue{Model: h.PlainLogout(sp, kind), NS: h.NSStyle{P: "samlp", A: "saml"}}
 						c := C10Case{SP: sp, Issue: li, SigState: state}
